@@ -32,6 +32,7 @@ type Fault struct {
 	Kind  string `json:"kind"`
 	N     int    `json:"n,omitempty"`
 	Index int    `json:"index,omitempty"`
+	Msg   string `json:"msg,omitempty"` // error text (hostile strings for the envelope check)
 }
 
 func faultKey(node int, field string) string { return strconv.Itoa(node) + "/" + field }
